@@ -100,6 +100,18 @@ class Interp:
         self.c, self.symbolic = crate, symbolic
         self.steps = 0
         self.bodies = {}
+        self.wrapping_units = set()        # structs whose integer fields are Wrapping<T>: plain operators wrap there
+        self.pc = []                       # path condition (symbolic branches taken)
+        self.panic = z3.BoolVal(False)     # "a debug-profile build panics": failed assert!/debug_assert!, overflow of plain + - *
+
+    def may_panic(self, cond):
+        """record that the run panics when `cond` (a z3 Bool / python bool) holds on the current path"""
+        if isinstance(cond, bool):
+            if not cond:
+                return
+            cond = z3.BoolVal(True)
+        c = z3.And(*(self.pc + [cond])) if self.pc else cond
+        self.panic = z3.simplify(z3.Or(self.panic, c))
 
     # ------------------------------------------------------------ types
     def ty(self, s):
@@ -165,7 +177,8 @@ class Interp:
             if p[0] == "self":
                 continue
             env[0][p[0]] = self.bind(args[pi], "".join(t[1] for t in p[1])); pi += 1
-        frame = dict(self=obj, unit=obj.unit, ret=("".join(t[1] for t in fn.ret) if fn.ret else None))
+        frame = dict(self=obj, unit=obj.unit, ret=("".join(t[1] for t in fn.ret) if fn.ret else None),
+                     checked=obj.unit not in self.wrapping_units)
         return self.run_body(self.body((obj.unit, name), fn, self.c.macros), env, frame)
 
     def call_assoc(self, unit, name, args):
@@ -176,7 +189,8 @@ class Interp:
         env = [{}]
         for p, a in zip([p for p in fn.params if p[0] != "self"], args):
             env[0][p[0]] = self.bind(a, "".join(t[1] for t in p[1]))
-        frame = dict(self=None, unit=unit, ret=("".join(t[1] for t in fn.ret) if fn.ret else None))
+        frame = dict(self=None, unit=unit, ret=("".join(t[1] for t in fn.ret) if fn.ret else None),
+                     checked=unit not in self.wrapping_units)
         return self.run_body(self.body((unit, name), fn, self.c.macros), env, frame)
 
     def call_free(self, name, args, unit):
@@ -278,9 +292,13 @@ class Interp:
         snap = self.snapshot(env, frame)
         def run(branch):
             ret = None
+            self.pc.append(cv if branch is th else z3.Not(cv))
             try:
-                if branch is not None:
-                    self.block(branch[0], env, frame, branch[1])
+                try:
+                    if branch is not None:
+                        self.block(branch[0], env, frame, branch[1])
+                finally:
+                    self.pc.pop()
             except Ret as r:
                 return ("ret", r.v), self.snapshot(env, frame)
             return ("go", None), self.snapshot(env, frame)
@@ -354,13 +372,27 @@ class Interp:
                 if isinstance(cur, I) and isinstance(v, int):
                     v = lit(v, cur.ty)
             else:
-                v = self.binop(op, self.ev(place, env, frame), self.ev(rhs, env, frame), None)
+                v = self.ev(("bin", op, place, rhs), env, frame)
             self.store(place, v, env, frame)
             return
         if k == "expr":
             e = s[1]
             if e[0] == "macro":
-                if e[1] in ("debug_assert", "debug_assert_eq", "debug_assert_ne", "trace", "debug", "info", "warn", "error"):
+                if e[1] in ("trace", "debug", "info", "warn", "error"):
+                    return
+                if e[1] in ("debug_assert", "assert", "debug_assert_eq", "assert_eq", "debug_assert_ne", "assert_ne"):
+                    parts = rsfront.split_top(e[2])
+                    try:
+                        if e[1].endswith("assert"):
+                            c = self.ev(rsfront.Parser(parts[0], self.c.macros).parse_expr_all(), env, frame)
+                        else:
+                            a = self.ev_(rsfront.Parser(parts[0], self.c.macros).parse_expr_all(), env, frame)
+                            b = self.ev_(rsfront.Parser(parts[1], self.c.macros).parse_expr_all(), env, frame, a.ty if isinstance(a, I) else None)
+                            c = self.binop("==" if e[1].endswith("_eq") else "!=", a, b, None)
+                    except Unsupported:
+                        raise
+                    cb = conc_bool(c)
+                    self.may_panic((not cb) if cb is not None else z3.Not(c))
                     return
                 raise Unsupported(f"macro {e[1]}!")
             self.ev(e, env, frame)
@@ -399,6 +431,9 @@ class Interp:
                     self.block(b[0], env, frame, b[1])
                 except Brk:
                     break
+            return
+        if k == "fn":
+            env[-1]["fn:" + s[1].name] = s[1]
             return
         if k == "return":
             raise Ret(self.ev(s[1], env, frame) if s[1] is not None else None)
@@ -651,6 +686,18 @@ class Interp:
                 return self.binop(op, a, self.ev(e[3], env, frame), None)
             a = self.ev_(e[2], env, frame, None if cmp else want)
             b = self.ev_(e[3], env, frame, (a.ty if isinstance(a, I) else (None if cmp else want)) if op not in ("<<", ">>") else None)
+            if op in ("+", "-", "*") and frame.get("checked", True):
+                a2, b2 = self.coerce2(self.undefer(a, b), self.undefer(b, a))
+                if isinstance(a2, I) and isinstance(b2, I) and a2.w == b2.w:
+                    sg = a2.signed
+                    if op == "+":
+                        okc = z3.And(z3.BVAddNoOverflow(a2.e, b2.e, sg), z3.BVAddNoUnderflow(a2.e, b2.e)) if sg else z3.BVAddNoOverflow(a2.e, b2.e, False)
+                    elif op == "-":
+                        okc = z3.And(z3.BVSubNoOverflow(a2.e, b2.e), z3.BVSubNoUnderflow(a2.e, b2.e, sg)) if sg else z3.BVSubNoUnderflow(a2.e, b2.e, False)
+                    else:
+                        okc = z3.And(z3.BVMulNoOverflow(a2.e, b2.e, sg), z3.BVMulNoUnderflow(a2.e, b2.e)) if sg else z3.BVMulNoOverflow(a2.e, b2.e, False)
+                    cb = conc_bool(z3.simplify(okc))
+                    self.may_panic((not cb) if cb is not None else z3.Not(okc))
             return self.binop(op, a, b, None if cmp else want)
         if k == "mcall":
             return self.mcall(e, env, frame, want)
@@ -667,9 +714,19 @@ class Interp:
             if not self.symbolic:
                 raise Unsupported("non-concrete condition")
             snap = self.snapshot(env, frame)
-            v1 = br(th); s1 = self.snapshot(env, frame)
+            self.pc.append(cv)
+            try:
+                v1 = br(th)
+            finally:
+                self.pc.pop()
+            s1 = self.snapshot(env, frame)
             self.restore(env, frame, snap)
-            v2 = br(el) if el is not None else None; s2 = self.snapshot(env, frame)
+            self.pc.append(z3.Not(cv))
+            try:
+                v2 = br(el) if el is not None else None
+            finally:
+                self.pc.pop()
+            s2 = self.snapshot(env, frame)
             self.merge_state(cv, env, frame, s1, s2)
             return self.merge_val(cv, v1, v2)
         if k == "block":
@@ -716,6 +773,8 @@ class Interp:
         # iterator chains
         if name in ("all", "any", "fold") and recv[0] == "mcall" and recv[2] in ("iter", "into_iter"):
             base = self.ev(recv[1], env, frame)
+            if isinstance(base, Obj) and list(base.f) == ["0"]:
+                base = base.f["0"]
             if not isinstance(base, list):
                 raise Unsupported("iterator over non-array")
             if name == "fold":
@@ -822,6 +881,14 @@ class Interp:
             if name == "seed_from_u64" :
                 raise Unsupported("default seed_from_u64 (PCG32)")
             raise Unsupported(f"function {tgt}::{name}")
+        if len(segs) == 1 and self.look(env, "fn:" + name) is not None:
+            fn = self.look(env, "fn:" + name)["fn:" + name]
+            avals = [self.ev(a, env, frame) for a in args]
+            env2 = [{}]
+            for p, a in zip(fn.params, avals):
+                env2[0][p[0]] = self.bind(a, "".join(t[1] for t in p[1]))
+            fr2 = dict(self=None, unit=unit, ret=("".join(t[1] for t in fn.ret) if fn.ret else None), checked=frame.get("checked", True))
+            return self.run_body(self.body(("nested", id(fn)), fn, self.c.macros), env2, fr2)
         if name in self.c.fns and (len(segs) == 1 or segs[0] in ("crate", "self", "super", "common")):
             return self.call_free(name, [self.ev(a, env, frame) for a in args], unit)
         raise Unsupported(f"call of {full}")
